@@ -60,10 +60,12 @@ BracketFail == /\ phase = "raw" /\ PureParse(cur.s).c = "unbalanced"
                /\ last' = [c |-> "unbalanced"] /\ phase' = "finally"
                /\ UNCHANGED <<cache, scratch, cur, hist>>
 \* grammar.parseString: callbacks fill the scratch sets (on top of whatever is already there)
+\* (written with nested quantifiers: TLC 1.8 evaluates {e : v, f \in SUBSET {}} to the empty set)
 GrammarRun == /\ phase = "raw" /\ PureParse(cur.s).c # "unbalanced"
-              /\ \E touched \in IF PureParse(cur.s).c = "tree" THEN {PureUsage(cur.s)}
-                                ELSE {[vars |-> v, funcs |-> f, sufs |-> {}] : v, f \in SUBSET NamesIn(cur.s)} :
-                   scratch' = Merge(scratch, touched)
+              /\ IF PureParse(cur.s).c = "tree"
+                 THEN scratch' = Merge(scratch, PureUsage(cur.s))
+                 ELSE \E v \in SUBSET NamesIn(cur.s) : \E f \in SUBSET NamesIn(cur.s) :
+                        scratch' = Merge(scratch, [vars |-> v, funcs |-> f, sufs |-> {}])
               /\ phase' = "grammar"
               /\ UNCHANGED <<cache, cur, last, hist>>
 \* ParseException -> UnableToParse
